@@ -87,6 +87,6 @@ UNIT = Unit('pr', [
         regex_rules=[('rule16_tuple_clone', r'let \((\w+), (\w+)\) = (\w+)\[(\w+)\]\.clone\(\);', r'let \1 = \3[\4].0.clone(); let \2 = \3[\4].1.clone();'),
                      ('rule21_string_from_literal', r'String::from\(("(?:[^"\\]|\\.)*")\)', r'vx_string_from(\1)'),
                      ('rule21_string_from_literal', r'("(?:[^"\\]|\\.)*")\.into\(\)', r'vx_string_from(\1)'),
-                     ('rule17_str_pattern', r"\b(\w+)\.contains\(('[^']*')\)", r'vx_contains_char(\1, \2)')]),
+                     ('rule17_str_pattern', r"\b(\w+)\.contains\(('(?:\\.|[^'\\])')\)", r'vx_contains_char(\1, \2)')]),
     Ghost('\n} } // verus!\nfn main(){}\n', name='tail'),
 ])
